@@ -80,11 +80,10 @@ func (g *Gen) frameEnv(f *Frame, st *State, results []Term) *Env {
 		env.vars[name] = Arg{t: t}
 	}
 	// loop-carried source variables are visible by their source name inside loop clauses
-	for _, phi := range f.loopPhis {
-		if phi.Comment != "" && phi.Comment != "rangeindex" {
-			if t, ok := f.vals[phi]; ok {
-				env.vars[phi.Comment] = Arg{t: t}
-			}
+	// loop-carried source variables (of this loop and of the enclosing ones) by their source name
+	for name, phi := range f.loopNames {
+		if t, ok := f.vals[phi]; ok {
+			env.vars[name] = Arg{t: t}
 		}
 	}
 	if f.loopIdx != nil {
